@@ -152,6 +152,16 @@ func (j *judge) check(sp *reqSpec, e expectation, o *obs) bool {
 	if o.AuthCalled > 0 {
 		b.Count("authenticator_called", 1)
 	}
+	if o.Mutated {
+		b.Count("handler_mutated_its_token", 1)
+	}
+	if o.TokShared {
+		// documentation level ("make a copy ... to mitigate the handler poisoning the token"):
+		// sharing alone does not break the statement, its exploitation is caught by the
+		// ordinary oracles on the following requests
+		b.Count("doc_deviation_token_object_shared", 1)
+		b.Note("doc-level: handler of %s %s was handed a token object that an earlier request's handler already held", sp.Method, sp.Path)
+	}
 	ok := true
 	cred := sigCred(e.Cred)
 	if sp.Target.Route == "undeclared" && o.Escaped == "" && len(o.Panics) == 0 {
